@@ -48,6 +48,14 @@ def helper_processors(ctx):
         arg = m.params[1]
         ok = len(body) == 1 and (match_stmt('yield from self.func(%s)' % arg, body[0]) is not None or
                                  match_stmt('for _x in self.func(%s):\n    yield _x' % arg, body[0]) is not None)
+        if not ok and len(body) == 2 and isinstance(body[0], ast.Assign) and len(body[0].targets) == 1 and \
+                isinstance(body[0].targets[0], ast.Name):
+            # the result bound to a local first: rows = self.func(resource); yield from rows
+            from rules.stream import subst_once as _so
+            tmp_ = body[0].targets[0].id
+            y_ = body[1].value if isinstance(body[1], ast.Expr) and isinstance(body[1].value, ast.YieldFrom) else None
+            ok = y_ is not None and pseudo(y_.value) == tmp_ and match_expr('self.func(%s)' % arg, body[0].value) is not None and \
+                sum(1 for n_ in ast.walk(m.node) if isinstance(n_, ast.Name) and n_.id == tmp_) == 2
         run.check(ok, 'HLP', m.where, m.qualname, 'yield from self.func(%s)' % arg,
                   'the rows function is not applied to the stream as given, or its output is altered')
     _flow, fl, loop = framework.find_dispatch_loop(ctx)
